@@ -1,8 +1,9 @@
 """Rule instances on the selector / event-loop readiness path (C19 parts, C20, C21)."""
 from analysis.facts import norm
 from analysis.cfg import Cfg
-from analysis.flow import DefUse, backward, find_calls, callee_is, callee_ends, op_local, op_const, static_of, field_chain, bool_branch, variant_arms
+from analysis.flow import DefUse, backward, find_calls, callee_is, callee_ends, op_local, op_const, static_of, field_chain, bool_branch, variant_arms, switch_info
 from analysis.table import PathWalker, describe_val
+from analysis.inline import inline
 from rules.common import need
 
 SEL = "net::selector::Selector"
@@ -381,7 +382,9 @@ def scope_rule(run, f, rid):
 # ------------------------------------------------------------------ C19
 def no_panic_rule(run, f, rid):
     run.rule(rid, "updating a per-descriptor time limit never asserts that the entry is new (only the lazy fill, dominated by its own miss, may)", floor=4, template="T10/T2")
-    sites = 0
+    LIM = ("syscall::unix::SEND_TIME_LIMIT", "syscall::unix::RECV_TIME_LIMIT")
+    # functions that insert into a limit table, each taken as one unit (closures and helpers spliced in)
+    roots = []
     for b in f.bodies:
         if b.kind == "Promoted":
             continue
@@ -389,21 +392,47 @@ def no_panic_rule(run, f, rid):
         for (x, t) in b.calls():
             if norm(t.get("callee") or "") == "dashmap::DashMap::insert":
                 du = du or DefUse(b)
-                s = static_of(b, du, t["args"][0])
-                if s in ("syscall::unix::SEND_TIME_LIMIT", "syscall::unix::RECV_TIME_LIMIT"):
-                    sites += 1
-                    cfg = Cfg(b)
-                    # is the Option returned by insert inspected and does a panic hang on it?
-                    dest = t["dest"]["l"]
-                    uses = [(y, tt) for (y, tt) in b.calls() if norm(tt.get("callee") or "") in ("std::option::Option::is_none", "std::option::Option::is_some", "std::option::Option::unwrap", "std::option::Option::expect") and any(z == x for (z, _t) in backward(b, tt["args"][0], du, at=(y, "term"), through_calls="none").calls)]
-                    panics = [y for (y, tt) in b.calls(include_cleanup=False) if norm(tt.get("callee") or "").startswith(("core::panicking::", "std::rt::panic", "std::panicking::"))]
-                    guarded_panic = any(p in cfg.reachable(cfg.after(u[0])) for u in uses for p in panics)
-                    lazy = b.kind == "Closure" and b.npath.rsplit("::{closure", 1)[0] in ("syscall::unix::send_time_limit", "syscall::unix::recv_time_limit")
-                    key = "%s/insert" % b.npath
-                    if guarded_panic and not lazy:
-                        run.fail(rid, key, b.loc(t["line"]), "%s asserts that no limit was cached for this descriptor yet: setting the option twice, or after any I/O filled the cache, panics inside an extern \"C\" frame and aborts the process" % b.npath.rsplit("::", 1)[1])
-                    else:
-                        run.ok(rid, key, {"lazy_fill": lazy, "asserts_new": guarded_panic})
+                if static_of(b, du, t["args"][0]) in LIM:
+                    rp = b.path.split("::{closure#")[0]
+                    rb = [c for c in f.bodies if c.path == rp and c.kind != "Promoted"]
+                    rb = rb[0] if rb else b
+                    if rb.path not in [r.path for r in roots]:
+                        roots.append(rb)
+    sites = 0
+    for root in roots:
+        b = inline(root, f)
+        units = [b]
+        if not any(norm(t.get("callee") or "") == "dashmap::DashMap::insert" for (_x, t) in b.calls()):
+            units = [c for c in [root] + f.closures_of(root) if c.kind != "Promoted"]   # a closure that could not be spliced
+        n = 0
+        for b in units:
+            du = DefUse(b)
+            cfg = Cfg(b)
+            for (x, t) in b.calls():
+                if norm(t.get("callee") or "") != "dashmap::DashMap::insert":
+                    continue
+                st = static_of(b, du, t["args"][0])
+                if st not in LIM:
+                    continue
+                sites += 1
+                # is the Option returned by insert inspected and does a panic hang on it?
+                uses = [(y, tt) for (y, tt) in b.calls() if norm(tt.get("callee") or "") in ("std::option::Option::is_none", "std::option::Option::is_some", "std::option::Option::unwrap", "std::option::Option::expect") and any(z == x for (z, _t) in backward(b, tt["args"][0], du, at=(y, "term"), through_calls="none").calls)]
+                swu = [y for y in cfg.reach if b.blocks[y]["term"]["k"] == "switch" and (switch_info(b, du, y) or {}).get("kind") == "discr" and switch_info(b, du, y)["place"]["l"] == t["dest"]["l"]]
+                panics = [y for (y, tt) in b.calls(include_cleanup=False) if norm(tt.get("callee") or "").startswith(("core::panicking::", "std::rt::panic", "std::panicking::"))]
+                guarded_panic = any(p in cfg.reachable(cfg.after(u[0])) for u in uses for p in panics) or any(p in cfg.reachable(cfg.after(y)) and not all(p in cfg.reachable({z}) for z in cfg.after(y)) for y in swu for p in panics)
+                # the lazy fill: this insert is dominated by the miss arm of a lookup in the same table
+                lazy = False
+                for (g, gt) in b.calls():
+                    if norm(gt.get("callee") or "") == "dashmap::DashMap::get" and static_of(b, du, gt["args"][0]) == st:
+                        va = variant_arms(b, cfg, du, gt["dest"]["l"], cfg.after(g))
+                        if va and va[0].get("None") is not None and cfg.dominates(va[0]["None"], x) and va[0].get("Some") != va[0]["None"]:
+                            lazy = True
+                key = "%s/insert%s" % (root.npath, "" if n == 0 else "#%d" % n)
+                n += 1
+                if guarded_panic and not lazy:
+                    run.fail(rid, key, b.loc(t["line"]), "%s asserts that no limit was cached for this descriptor yet: setting the option twice, or after any I/O filled the cache, panics inside an extern \"C\" frame and aborts the process" % root.npath.rsplit("::", 1)[1])
+                else:
+                    run.ok(rid, key, {"lazy_fill": lazy, "asserts_new": guarded_panic})
     return sites
 
 
